@@ -23,8 +23,16 @@ def sx_float(x=0.0):
 
 
 def sx_int(x=0, *a):
-    if isinstance(x, SNum):
-        return builtins.int(core.concretize(x))
+    if isinstance(x, (SNum, SSqrt)):
+        # int() truncates toward zero; the result stays symbolic (it is concretised only where Python
+        # needs a machine integer: indexing, range(), shapes)
+        import z3
+        from . import casts
+        if isinstance(x, SNum) and z3.is_int(x.e):
+            return x
+        if isinstance(x, SNum) and x.dom is not None:
+            return builtins.int(core.concretize(x))
+        return casts.sx_trunc(x)
     return builtins.int(x, *a)
 
 
